@@ -365,7 +365,7 @@ func funcInfoOf(name string) funcInfo {
 //@ func (*converter).SliceInstantiation
 //@   loop @"range values" invariant[C03,C05] storage-lines-kept: routeOK(c) && specBlockBefore(c) == specBlock(c) && len(specBlock(c)) == len(old(specBlockBefore(c))) + 4 + rangeindex && specBlock(c)[len(old(specBlockBefore(c)))] == "set /A \"_dvc=!_dvc!+1\"" && specBlock(c)[len(old(specBlockBefore(c))) + 1] == specSet(specName(len(c.funcs) > 0, c.funcCounter, specHelperName(old(c.varCounter)), false), "_dv!_dvc!") && specBlock(c)[len(old(specBlockBefore(c))) + 2] == "call :_sls " + specRef(specName(len(c.funcs) > 0, c.funcCounter, specHelperName(old(c.varCounter)), false)) + " " + itoa(len(values)) && c.varCounter == old(c.varCounter) + 1 && c.funcs == old(c.funcs) && c.funcCounter == old(c.funcCounter)
 //@   ensures[C03,C05] counter-then-storage-then-length-then-elements: len(specBlock(c)) == len(old(specBlockBefore(c))) + 3 + len(values) && specBlock(c)[len(old(specBlockBefore(c)))] == "set /A \"_dvc=!_dvc!+1\"" && specBlock(c)[len(old(specBlockBefore(c))) + 1] == specSet(specName(len(c.funcs) > 0, c.funcCounter, specHelperName(old(c.varCounter)), false), "_dv!_dvc!") && specBlock(c)[len(old(specBlockBefore(c))) + 2] == "call :_sls " + specRef(specName(len(c.funcs) > 0, c.funcCounter, specHelperName(old(c.varCounter)), false)) + " " + itoa(len(values)) && result0 == specRef(specName(len(c.funcs) > 0, c.funcCounter, specHelperName(old(c.varCounter)), false)) && c.varCounter == old(c.varCounter) + 1
-//@   ensures[C16] helper-flagged: c.sliceAssignmentHelperRequired && err == nil
+//@   ensures[C16] the-routine-that-is-called-is-flagged-and-no-other: c.sliceLenSetHelperRequired && err == nil && c.sliceAssignmentHelperRequired == old(c.sliceAssignmentHelperRequired) && c.sliceLenGetHelperRequired == old(c.sliceLenGetHelperRequired) && c.sliceCopyHelperRequired == old(c.sliceCopyHelperRequired)
 //
 //@ func (*converter).FuncStart
 //@   requires[C13,C16] named: name != ""
@@ -566,7 +566,7 @@ func specECH() []string {
 //@   ensures[C16,C18] app-call-helper-iff-needed: ((old(c.appCallHelperRequired)) ==> helperEmitted("app call", "_ach", specACH())) && (!(old(c.appCallHelperRequired)) ==> helperAbsent("_ach"))
 //@   ensures[C16,C17] read-helper-iff-needed: ((old(c.readHelperRequired)) ==> helperEmitted("read", "_frh", specFRH())) && (!(old(c.readHelperRequired)) ==> helperAbsent("_frh"))
 //@   ensures[C03,C05,C16] slice-copy-helper-iff-needed: ((old(c.sliceCopyHelperRequired)) ==> helperEmitted("slice copy", "_sch", specSCH())) && (!(old(c.sliceCopyHelperRequired)) ==> helperAbsent("_sch"))
-//@   ensures[C03,C05,C16] slice-assignment-helper-iff-needed: ((old(c.sliceAssignmentHelperRequired) || old(c.sliceCopyHelperRequired)) ==> helperEmitted("slice assignment", "_sah", specSAH())) && (!(old(c.sliceAssignmentHelperRequired) || old(c.sliceCopyHelperRequired)) ==> helperAbsent("_sah"))
+//@   ensures[C03,C05,C16] slice-assignment-helper-iff-needed: ((old(c.sliceAssignmentHelperRequired)) ==> helperEmitted("slice assignment", "_sah", specSAH())) && (!(old(c.sliceAssignmentHelperRequired)) ==> helperAbsent("_sah"))
 //@   ensures[C03,C05,C16] slice-length-set-helper-iff-needed: ((old(c.sliceLenSetHelperRequired) || old(c.sliceAssignmentHelperRequired) || old(c.sliceCopyHelperRequired)) ==> helperEmitted("slice length set", "_sls", specSLS())) && (!(old(c.sliceLenSetHelperRequired) || old(c.sliceAssignmentHelperRequired) || old(c.sliceCopyHelperRequired)) ==> helperAbsent("_sls"))
 //@   ensures[C03,C05,C16] slice-length-get-helper-iff-needed: ((old(c.sliceLenGetHelperRequired) || old(c.sliceAssignmentHelperRequired) || old(c.sliceCopyHelperRequired)) ==> helperEmitted("slice length get", "_slg", specSLG())) && (!(old(c.sliceLenGetHelperRequired) || old(c.sliceAssignmentHelperRequired) || old(c.sliceCopyHelperRequired)) ==> helperAbsent("_slg"))
 //@   ensures[C03,C05,C16] string-subscript-helper-iff-needed: ((old(c.stringSubscriptHelperRequired)) ==> helperEmitted("string subscript", "_stsh", specSTSH())) && (!(old(c.stringSubscriptHelperRequired)) ==> helperAbsent("_stsh"))
